@@ -6,6 +6,21 @@ props = [json.loads(l) for l in open(os.path.join(V, 'properties.jsonl'))]
 
 # id -> (design_ref, level text, level note, technique)
 CLAIMED = {
+ 'C01': ('DESIGN.md section 3 / C01',
+   'spec/AwkSem.tla is a reference big-step semantics of AWK over the syntax tree, written in TLA+ and knowing nothing about byte '
+   'code. TLC enumerates ~8,000 programs in nine families that each cross one compiler mechanism completely (7 lvalue kinds x 11 '
+   'assignment forms x 5 expression positions; 6 comparisons x 121 operand-kind pairs x 10 control-flow spellings that reach each '
+   'fused jump and its inverse; loop nests x jump statements; concatenation groupings; call shapes; constant shortcuts; patterns; '
+   'sub/gsub targets ...), evaluates each with the reference semantics, asserts inside TLC that the listed equivalent spellings '
+   'are equivalent under the semantics, and exports program + spellings + predicted stdout/status/error; the harness renders every '
+   'spelling and runs it through the real parser, compiler and VM. 400-4,000 random programs produced by a seeded generator are '
+   'run on the real interpreter and validated by TLC against the same semantics (Trace_AwkSem). Executed-opcode coverage is '
+   'measured through the verif step hook and reported.',
+   'Trusted: TLC, the transcription of AWK semantics in AwkSem.tla (itself cross-checked by the metamorphic equalities and by '
+   'agreement with the real interpreter on ~8,000 programs), the harness renderer. Integers only (|n| <= 30000); getline, I/O '
+   'redirection, CSV and native functions are covered by other properties\' modules.',
+   'TLA+ reference semantics evaluated by TLC; replay of TLC-exported programs and equivalent spellings on the real compiler+VM; '
+   'TLC validation of recorded random-program executions'),
  'C06': ('DESIGN.md section 3 / C06',
    'TLC checks exhaustively (all operation histories up to depth 4-5 over a menu of ~60 operation instances) that the lazy '
    'record representation refines the abstract AWK record of spec/Record.tla; every history of <= 3 operations exported by '
